@@ -354,10 +354,59 @@ func (tv *tvChecker) requiredTypesArity(typeName string) (int, string) {
 			continue
 		}
 		var val ast.Expr
+		isPathCall := func(e ast.Expr) bool {
+			pc, ok := e.(*ast.CallExpr)
+			if !ok {
+				return false
+			}
+			sel, ok := pc.Fun.(*ast.SelectorExpr)
+			return ok && sel.Sel.Name == "Path" && len(pc.Args) == 0
+		}
+		// names that hold the column's path: locals initialised with <recv>.Path(), and the Path field of the value being
+		// built once it has been given <recv>.Path() (directly or through such a local)
+		pathNames := map[string]bool{}
+		pathFieldSet := false
+		holdsPath := func(e ast.Expr) bool {
+			if isPathCall(e) {
+				return true
+			}
+			if id, ok := e.(*ast.Ident); ok {
+				return pathNames[id.Name]
+			}
+			if sel, ok := e.(*ast.SelectorExpr); ok && sel.Sel.Name == "Path" {
+				return pathFieldSet
+			}
+			return false
+		}
 		ast.Inspect(fd.Body, func(n ast.Node) bool {
-			if kv, ok := n.(*ast.KeyValueExpr); ok {
-				if k, ok := kv.Key.(*ast.Ident); ok && k.Name == "Types" {
-					val = kv.Value
+			switch x := n.(type) {
+			case *ast.KeyValueExpr:
+				if k, ok := x.Key.(*ast.Ident); ok {
+					if k.Name == "Types" {
+						val = x.Value
+					}
+					if k.Name == "Path" && holdsPath(x.Value) {
+						pathFieldSet = true
+					}
+				}
+			case *ast.AssignStmt:
+				for i, l := range x.Lhs {
+					if i >= len(x.Rhs) {
+						break
+					}
+					switch lx := l.(type) {
+					case *ast.Ident:
+						if holdsPath(x.Rhs[i]) {
+							pathNames[lx.Name] = true
+						}
+					case *ast.SelectorExpr:
+						if lx.Sel.Name == "Path" && holdsPath(x.Rhs[i]) {
+							pathFieldSet = true
+						}
+						if lx.Sel.Name == "Types" {
+							val = x.Rhs[i]
+						}
+					}
 				}
 			}
 			return true
@@ -368,15 +417,11 @@ func (tv *tvChecker) requiredTypesArity(typeName string) (int, string) {
 		case *ast.CompositeLit:
 			return len(x.Elts), ""
 		case *ast.CallExpr:
-			// make([]int, len(<recv>.Path()))
+			// make([]int, len(<the column's path>))
 			if id, ok := x.Fun.(*ast.Ident); ok && id.Name == "make" && len(x.Args) == 2 {
 				if l, ok := x.Args[1].(*ast.CallExpr); ok {
-					if lid, ok := l.Fun.(*ast.Ident); ok && lid.Name == "len" && len(l.Args) == 1 {
-						if pc, ok := l.Args[0].(*ast.CallExpr); ok {
-							if sel, ok := pc.Fun.(*ast.SelectorExpr); ok && sel.Sel.Name == "Path" {
-								return -1, ""
-							}
-						}
+					if lid, ok := l.Fun.(*ast.Ident); ok && lid.Name == "len" && len(l.Args) == 1 && holdsPath(l.Args[0]) {
+						return -1, ""
 					}
 				}
 			}
